@@ -661,6 +661,13 @@ class Flow(object):
                 return self.mod(l - exact, r)
             if not l.monomials():
                 return P.const(l.const_value() % d)
+            # (e % d) % d == e % d
+            if len(l.t) == 1:
+                (m, c), = l.t.items()
+                if c == 1 and len(m) == 1:
+                    info = self.atom_info.get(m[0])
+                    if info and info[0] == "mod" and info[2] == r:
+                        return l
         name = "mod(%r, %r)" % (l, r)
         return self._composite(name, [l, r], ("mod", l, r))
 
